@@ -569,7 +569,7 @@ func (s *Sim) Run() Outcome {
 		if len(en) == 0 {
 			// nothing can run: if the library itself is waiting on a timer, move
 			// the fake clock to the earliest one and look again
-			if d, ok := s.nextTimer(); ok && advN < AutoAdvanceMax {
+			if d, ok := s.nextTimer(); ok && advN < AutoAdvanceMax && s.AutoAdvances < AutoAdvanceRunMax {
 				advN++
 				// a ticker that keeps the run from resting is served with growing
 				// strides (a process that was not scheduled for a while misses ticks
@@ -813,6 +813,10 @@ func (s *Sim) RecentSites(n int) string {
 
 // Limit of the automatic clock advance to library timers, per Run call.
 var AutoAdvanceMax = 40
+
+// AutoAdvanceRunMax is the same limit for a whole run (many goroutines that each
+// re-arm a timer would otherwise use up the step budget between them).
+var AutoAdvanceRunMax = 100
 
 // Timers and tickers of instrumented code: created on the bubble's fake clock
 // as usual, and made known to the scheduler so that it moves the clock to them
